@@ -295,6 +295,93 @@ func run(c *mc.Ctx) {
 		o += hx(eb(curve.NewEdwardsPoint().ExpandedMultiscalarMulVartime(ss[:h], xs[:h], ss[h:], ps[h:])), eb(curve.NewEdwardsPoint().ExpandedMultiscalarMulVartime(ss, xs, nil, nil)))
 		return o
 	})
+	// receiver aliasing an operand, and operands aliasing each other: results must be the same bytes in every backend
+	space(c, "aliasing", nP*8, func(i int) string {
+		P0, Q0, sv := P[i%nP], P[(i*7+3)%nP], sc(S[(i*5+1)%nS])
+		fresh := func() (*curve.EdwardsPoint, *curve.EdwardsPoint) {
+			return curve.NewEdwardsPoint().Set(P0), curve.NewEdwardsPoint().Set(Q0)
+		}
+		var o string
+		p, q := fresh()
+		o += hx(eb(p.Add(p, q)))
+		p, q = fresh()
+		o += hx(eb(p.Add(q, p)))
+		p, q = fresh()
+		o += hx(eb(p.Sub(p, q)))
+		p, q = fresh()
+		o += hx(eb(p.Sub(q, p)))
+		p, _ = fresh()
+		o += hx(eb(p.Add(p, p)))
+		p, _ = fresh()
+		o += hx(eb(p.Sub(p, p)))
+		p, _ = fresh()
+		o += hx(eb(p.Neg(p)))
+		p, _ = fresh()
+		o += hx(eb(p.MulByCofactor(p)))
+		p, _ = fresh()
+		o += hx(eb(p.Mul(p, sv)))
+		p, q = fresh()
+		o += hx(eb(p.MultiscalarMul([]*scalar.Scalar{sv, sv}, []*curve.EdwardsPoint{p, q})))
+		p, q = fresh()
+		o += hx(eb(p.MultiscalarMul([]*scalar.Scalar{sv, sv}, []*curve.EdwardsPoint{q, p})))
+		p, q = fresh()
+		o += hx(eb(p.MultiscalarMulVartime([]*scalar.Scalar{sv, sv}, []*curve.EdwardsPoint{p, q})))
+		p, q = fresh()
+		o += hx(eb(p.MultiscalarMulVartime([]*scalar.Scalar{sv, sv, sv}, []*curve.EdwardsPoint{q, p, p})))
+		p, q = fresh()
+		o += hx(eb(p.Sum([]*curve.EdwardsPoint{p, q, p})))
+		p, _ = fresh()
+		o += hx(eb(p.DoubleScalarMulBasepointVartime(sv, p, sv)))
+		p, q = fresh()
+		o += hx(p.TripleScalarMulBasepointVartime(sv, p, sv, q).IsSmallOrder())
+		p, q = fresh()
+		o += hx(p.TripleScalarMulBasepointVartime(sv, q, sv, p).IsSmallOrder())
+		p, q = fresh()
+		x := curve.NewExpandedEdwardsPoint(q)
+		o += hx(eb(p.ExpandedMultiscalarMulVartime([]*scalar.Scalar{sv}, []*curve.ExpandedEdwardsPoint{x}, []*scalar.Scalar{sv}, []*curve.EdwardsPoint{p})))
+		p, q = fresh()
+		p.ConditionalSelect(p, q, i&1)
+		o += hx(eb(p))
+		// Ristretto wrappers
+		r0 := curve.VerifRistrettoFromEdwards(curve.NewEdwardsPoint().Add(P0, P0))
+		r1 := curve.VerifRistrettoFromEdwards(curve.NewEdwardsPoint().Add(Q0, Q0))
+		rf := func() (*curve.RistrettoPoint, *curve.RistrettoPoint) {
+			return curve.NewRistrettoPoint().Set(r0), curve.NewRistrettoPoint().Set(r1)
+		}
+		a, b := rf()
+		o += hx(rb(a.Add(a, b)))
+		a, b = rf()
+		o += hx(rb(a.Sub(a, b)))
+		a, b = rf()
+		o += hx(rb(a.Sub(b, a)))
+		a, _ = rf()
+		o += hx(rb(a.Neg(a)))
+		a, _ = rf()
+		o += hx(rb(a.Mul(a, sv)))
+		a, b = rf()
+		o += hx(rb(a.MultiscalarMul([]*scalar.Scalar{sv, sv}, []*curve.RistrettoPoint{a, b})))
+		a, b = rf()
+		o += hx(rb(a.MultiscalarMulVartime([]*scalar.Scalar{sv, sv}, []*curve.RistrettoPoint{b, a})))
+		a, b = rf()
+		o += hx(rb(a.Sum([]*curve.RistrettoPoint{a, b})))
+		a, _ = rf()
+		o += hx(rb(a.DoubleScalarMulBasepointVartime(sv, a, sv)))
+		// scalars
+		s1, s2 := sc(S[i%nS]), sc(S[(i*3+2)%nS])
+		t := scalar.New().Set(s1)
+		o += hx(sb(t.Add(t, s2)))
+		t.Set(s1)
+		o += hx(sb(t.Sub(s2, t)))
+		t.Set(s1)
+		o += hx(sb(t.Mul(t, t)))
+		t.Set(s1)
+		o += hx(sb(t.Neg(t)))
+		t.Set(s1)
+		o += hx(sb(t.Reduce(t)))
+		t.Set(s1)
+		o += hx(sb(t.Sum([]*scalar.Scalar{t, s2})), sb(scalar.New().Set(s1).Product([]*scalar.Scalar{s1, s2})))
+		return o
+	})
 	// ---- curve: Ristretto ----
 	space(c, "ristretto.ops", nR*nR, func(i int) string {
 		a, b := R[i/nR], R[i%nR]
